@@ -583,7 +583,7 @@ func (x *fx) writeTarget(ref Term, desc string, p token.Pos) {
 	if !e.wfree {
 		return
 	}
-	alts := []Term{fmt.Sprintf("(>= %s %s)", ref, e.entryState.alloc)}
+	alts := []Term{fmt.Sprintf("(>= %s %s)", ref, e.entryState.alloc), fmt.Sprintf("(= %s 0)", ref)}
 	for _, w := range e.writeRefs {
 		alts = append(alts, fmt.Sprintf("(= %s %s)", ref, w))
 	}
